@@ -5,12 +5,15 @@ package fault
 
 import (
 	"bytes"
+	"crypto/tls"
 	"fmt"
+	"net"
 	"os"
 	"runtime"
 	"sort"
 	"strings"
 	"sync"
+	"sync/atomic"
 	"testing"
 	"time"
 
@@ -280,9 +283,73 @@ func startPeers(rfPort, abmfPort int, pemF, keyF string) error {
 			p.mu.Unlock()
 		})
 	})
-	go func() { _ = diam.ListenAndServeTLS(fmt.Sprintf("127.0.0.1:%d", rfPort), pemF, keyF, rmux, nil) }()
-	go func() { _ = diam.ListenAndServeTLS(fmt.Sprintf("127.0.0.1:%d", abmfPort), pemF, keyF, amux, nil) }()
+	cert, err := tls.LoadX509KeyPair(pemF, keyF)
+	if err != nil {
+		return err
+	}
+	for port, mux := range map[int]diam.Handler{rfPort: rmux, abmfPort: amux} {
+		l, err := net.Listen("tcp", fmt.Sprintf("127.0.0.1:%d", port))
+		if err != nil {
+			return err
+		}
+		srv := &diam.Server{Handler: mux}
+		go func(l net.Listener) {
+			_ = srv.Serve(tls.NewListener(countingListener{l}, &tls.Config{Certificates: []tls.Certificate{cert}}))
+		}(l)
+	}
 	return nil
+}
+
+// The peers count the transport connections they hold open, and can be slow to bring a new one up.
+var (
+	openConns    int64 // accepted and not yet closed, both peers
+	setupDelayMs int64 // applied to connections accepted from now on: the peer's side of the TLS handshake starts that late
+)
+
+type countingListener struct{ net.Listener }
+
+func (l countingListener) Accept() (net.Conn, error) {
+	c, err := l.Listener.Accept()
+	if err != nil {
+		return nil, err
+	}
+	atomic.AddInt64(&openConns, 1)
+	return &countedConn{Conn: c, delay: time.Duration(atomic.LoadInt64(&setupDelayMs)) * time.Millisecond}, nil
+}
+
+type countedConn struct {
+	net.Conn
+	delay  time.Duration
+	first  sync.Once
+	closed int32
+}
+
+func (c *countedConn) Read(b []byte) (int, error) {
+	c.first.Do(func() {
+		if c.delay > 0 {
+			time.Sleep(c.delay)
+		}
+	})
+	return c.Conn.Read(b)
+}
+
+func (c *countedConn) Close() error {
+	if atomic.CompareAndSwapInt32(&c.closed, 0, 1) {
+		atomic.AddInt64(&openConns, -1)
+	}
+	return c.Conn.Close()
+}
+
+// connectionsLeft waits for the peers' connections to be closed (the CHF closes, the peer follows) and returns
+// how many are still open after 6 s.
+func connectionsLeft() int64 {
+	for i := 0; i < 60; i++ {
+		if atomic.LoadInt64(&openConns) == 0 {
+			return 0
+		}
+		time.Sleep(100 * time.Millisecond)
+	}
+	return atomic.LoadInt64(&openConns)
 }
 
 func TestMain(m *testing.M) {
@@ -647,7 +714,53 @@ func judgeSurplus(c surplusCase) *h.Verdict {
 	if n, sample := leftoverTasks(); n > 0 {
 		return v.Failf("tasks-left-after-surplus-answers", "%d subscribers x %d updates answered with %q answers left %d goroutines inside the CHF's Diameter client code, e.g.\n%s", c.Subs, c.N, c.Kind, n, sample)
 	}
+	if n := connectionsLeft(); n > 0 {
+		return v.Failf("connections-left-after-surplus-answers", "%d subscribers x %d updates answered with %q answers: the peers still hold %d connections open 6 s after the last request returned", c.Subs, c.N, c.Kind, n)
+	}
 	return v
+}
+
+// C18 with peers that are slow to bring a connection up (the peer's side of the TLS handshake starts late).
+type setupCase struct {
+	Subs    int `json:"subs"`
+	N       int `json:"n"`
+	DelayMs int `json:"delayMs"`
+}
+
+func judgeSetup(c setupCase) *h.Verdict {
+	v := &h.Verdict{NonTrivial: c.DelayMs > 0}
+	v.Label(fmt.Sprintf("setup-delay:%dms", c.DelayMs))
+	var b Batch
+	for i := 0; i < c.Subs; i++ {
+		var sc Script
+		for j := 0; j < c.N; j++ {
+			sc.Steps = append(sc.Steps, Step{Abmf: Action{Kind: "prompt"}, Reserve: Action{Kind: "prompt"}})
+		}
+		b.Scripts = append(b.Scripts, sc)
+	}
+	atomic.StoreInt64(&setupDelayMs, int64(c.DelayMs))
+	bv := judgeBatch(b)
+	atomic.StoreInt64(&setupDelayMs, 0)
+	if bv.Failed() {
+		// a client that gives up on a peer this slow, and whatever it then does with the request, is not a leak
+		// (answer matching is C19's business); only a request that never returns and what is left behind count here
+		if strings.HasPrefix(bv.Sig, "blocked/") {
+			return bv
+		}
+	}
+	if n, sample := leftoverTasks(); n > 0 {
+		return v.Failf("tasks-left-after-slow-setup", "%d subscribers x %d updates against peers that take %d ms to bring a connection up left %d goroutines inside the CHF's Diameter client code, e.g.\n%s", c.Subs, c.N, c.DelayMs, n, sample)
+	}
+	if n := connectionsLeft(); n > 0 {
+		return v.Failf("connections-left-after-slow-setup", "%d subscribers x %d updates against peers that take %d ms to bring a connection up: the peers still hold %d connections open 6 s after the last request returned", c.Subs, c.N, c.DelayMs, n)
+	}
+	return v
+}
+
+func TestC18SlowSetup(t *testing.T) {
+	h.Run(t, "C18", "setup", func(t *rapid.T) setupCase {
+		return setupCase{Subs: rapid.IntRange(1, 3).Draw(t, "subs"), N: rapid.IntRange(1, 2).Draw(t, "n"), DelayMs: rapid.SampledFrom([]int{0, 300, 1200, 2500, 3500, 4500}).Draw(t, "delayMs")}
+	}, judgeSetup)
 }
 
 func TestC18Surplus(t *testing.T) {
